@@ -314,6 +314,8 @@ def _check_axes(t, axes):
         raise Unsupported("FFT over all axes (axes=None)")
     axes = tuple(axes)
     n = len(axes)
+    if t.ndim < n or t.ndim == 0:
+        raise ShapeError(f"FFT over {n} axes of a rank-{t.ndim} array")
     if tuple(a % t.ndim for a in axes) != tuple(range(t.ndim - n, t.ndim)):
         return None
     return n
